@@ -237,7 +237,7 @@ class CHECK(Check):
         if any(t.type in REWRITTEN for t in upto):
             return 'rewritten-token'
         seg = text[:end]
-        if re.search(r'/\*[^*]*\n[^*]*\*/', seg):
+        if re.search(r'/\*[^*]*\n[^*]*\*/', text if whole_lines else seg):
             return 'multiline-comment'
         f = []
         if '/*' in seg or '--' in seg:
